@@ -100,6 +100,7 @@ DROP_ATTR_PATHS = {"derive", "bean", "serde", "rtype", "prost", "binrw", "allow"
 
 
 STRUCTURAL = set()
+DERIVED_DEFAULT = set()   # unit.toml: derived_default = [...] (T1: axiomatised compiler-generated Default)
 
 
 def strip_attrs(data, item, tlog, keep_derive_copy=True):
@@ -171,6 +172,22 @@ def strip_attrs(data, item, tlog, keep_derive_copy=True):
         else:
             hdr = "impl Clone for %s" % name
         text += ("\n%s {\n    #[verifier::external_body]\n    fn clone(&self) -> (r: Self)\n        ensures r == *self\n    { unimplemented!() }\n}\n" % hdr).encode()
+    # T1: a dropped, compiler-generated Default of a plain struct with named fields that the unit lists under `derived_default` becomes an axiomatised default: Option fields are None,
+    # bool fields false, integer fields 0; fields of other types are left unspecified (sound under-specification)
+    dropped_default = any(t.get("t") == "T1" and t.get("item") == item["path"] and "Default" in t.get("dropped_derives", []) for t in tlog)
+    if dropped_default and item["path"].split("::")[-1] in DERIVED_DEFAULT and item["kind"] == "struct" and item.get("named") and not (item.get("generics") or "").strip():
+        name = item["path"].split("::")[-1]
+        cl = []
+        for f in item.get("fields", []) or []:
+            ty = re.sub(r"\s+", "", f.get("ty") or "")
+            if ty.startswith("Option<"):
+                cl.append("r.%s is None" % f["name"])
+            elif ty == "bool":
+                cl.append("!r.%s" % f["name"])
+            elif ty in ("u8", "u16", "u32", "u64", "usize", "i8", "i16", "i32", "i64", "isize"):
+                cl.append("r.%s == 0" % f["name"])
+        ens = ("\n        ensures " + ", ".join(cl)) if cl else ""
+        text += ("\nimpl std::default::Default for %s {\n    #[verifier::external_body]\n    fn default() -> (r: Self)%s\n    { unimplemented!() }\n}\n" % (name, ens)).encode()
     return text
 
 
@@ -933,6 +950,8 @@ def assemble_unit(unit_dir, repo=None, canary=False):
     CRASH_ACTIVE = (ACTIVE_PROP is None) or (ACTIVE_PROP in unit.get("crashpoints_for", []))
     STRUCTURAL.clear()
     STRUCTURAL.update(unit.get("structural", []))
+    DERIVED_DEFAULT.clear()
+    DERIVED_DEFAULT.update(unit.get("derived_default", []))
     for item in unit.get("assumed", []):
         if item not in wanted:
             raise Undecided("unit.toml: assumed item %s is not listed in a source" % item)
